@@ -200,6 +200,15 @@ func (x *Exec) spawn(name string, fn func(), counted bool) *Thread {
 		x.threads[th.goid] = th
 		x.mu.Unlock()
 		defer func() {
+			// a panic in a goroutine of the code under test would take the process down: it is a
+			// violation of whatever is being checked, not a reason to lose the whole exploration
+			if r := recover(); r != nil {
+				x.mu.Lock()
+				if x.Violation == nil {
+					x.Violation = fmt.Errorf("panic in goroutine %s: %v\n%s", th.Name, r, stack())
+				}
+				x.mu.Unlock()
+			}
 			x.mu.Lock()
 			th.done = true
 			th.parked = false
